@@ -326,7 +326,8 @@ def build():
                    "e_random_state": [lambda: 2], "c_n_init": [lambda: 2], "e_l1_ratio": [lambda: 0.0]}))
     add(Spec("ExtendedFeatures",
              [lambda: mm.ExtendedFeatures(), lambda: mm.ExtendedFeatures(kind="poly-slow", poly_degree=3),
-              lambda: mm.ExtendedFeatures(poly_interaction_only=True, poly_include_bias=False)],
+              lambda: mm.ExtendedFeatures(poly_interaction_only=True, poly_include_bias=False),
+              lambda: mm.ExtendedFeatures(poly_degree=3), lambda: mm.ExtendedFeatures(poly_degree=4, poly_interaction_only=True)],
              lambda r: {"X": reg_data(r)["X"]}, lambda r: {"X": reg_data(r, n=20, d=5)["X"]},
              methods=["transform"], rowwise=["transform"], alts={"kind": [lambda: "poly-slow", lambda: "poly"]}))
     add(Spec("IntervalRegressor",
